@@ -270,3 +270,8 @@ LEVEL_NOTE = ("CONCAT prints NULL as `<nil>` (pinned by TestConcatFunc): known f
               "out-of-model): that clause is EXPLORED on the implementation (values on both sides of the %v exponent thresholds, exponent-"
               "form texts), not proved.")
 TECHNIQUE = "Lean 4 proof (codec arithmetic by omega; list laws by induction) + per-function differential correspondence"
+
+# the text of the functions this property's model mirrors is a regenerated fact (Obligations/PinC18: closed by rfl)
+FACTS = True
+LEAN_TARGETS = list(LEAN_TARGETS) + ["Genql.Obligations.PinC18"]
+THEOREMS = list(THEOREMS) + ["Genql.Obligations.PinC18.pinned_text"]
